@@ -114,20 +114,33 @@ static void run(const unsigned char *a, size_t la) {
 }
 #define CASE(K) if (in.la == (K)) run(in.a, (K));
 void HARNESS(void) { VIN(vin_t);
+#ifdef ALL_LENGTHS
   VASSUME(in.la <= N);
-''' + CASES + r'''  CANARY(); }'''
+''' + CASES + r'''#else
+  VASSUME(in.la == N);      /* shorter targets = this one padded with trailing spaces, which the splitter strips first */
+  run(in.a, N);
+#endif
+  CANARY(); }'''
 
 
-def parse_uri_unit(name, nq, nt, prealloc, thorough_only=False, timeout=(600, 3000)):
+def parse_uri_unit(name, nq, nt, extra, bound, thorough_only=False, timeout=(600, 3000)):
+    d = {'N': nq, 'PREALLOC': 0, 'C13_MEMCHR_MODEL': 1, 'C13_BSTR_MODEL': 1}
+    d.update(extra)
     UNITS.append(U(
         name=name, props=['C13'], kind='bounded', src=['htp_util.c'], replay='vin',
         contracts_inc=['uri_ref.h', 'c13_uri.h'], harness=PARSE_URI_H,
-        defs={'quick': {'N': nq, 'PREALLOC': prealloc, 'C13_MEMCHR_MODEL': 1, 'C13_BSTR_MODEL': 1}, 'thorough': {'N': nt}},
-        flags_add=['--unwind', str(max(nq, nt, 8) + 3), '--unwinding-assertions', '--memory-leak-check'],
+        defs={'quick': d, 'thorough': {'N': nt}},
+        flags_add=['--unwind', str(max(nt, 8) + 3), '--unwinding-assertions', '--memory-leak-check'],
         flags_del=['--unsigned-overflow-check'], thorough_only=thorough_only, timeout=timeout,
-        bound='all targets of length <= N (quick N=%d, thorough N=%d), all byte values' % (nq, nt), assumes=AB,
+        bound=bound % (nq, nt), assumes=AB,
         sub='real htp_parse_uri: components re-join to the target minus trailing spaces (ordered, contiguous, delimiter-separated, byte-identical); '
             "'/'-targets have no scheme/authority; every component equals the independent RFC 3986-style reference; no leak / over-read under any allocation failure"))
 
 
-parse_uri_unit('ref_parse_uri', 5, 9, 0, timeout=(300, 3000))
+parse_uri_unit('ref_parse_uri', 8, 10, {},
+               'all targets of length exactly N (quick N=%d, thorough N=%d) over all byte values; this includes every shorter target padded with trailing spaces, which the splitter strips first')
+parse_uri_unit('ref_parse_uri_short', 4, 6, {'ALL_LENGTHS': 1},
+               'all targets of every length 0..N (quick N=%d, thorough N=%d), each in a heap buffer of exactly that size (over-read detection at every length)')
+parse_uri_unit('ref_parse_uri_prealloc', 6, 8, {'PREALLOC': 1},
+               'caller-provided htp_uri_alloc() structure (the way htp_transaction.c calls it); targets of length exactly N (quick N=%d, thorough N=%d)', thorough_only=False)
+parse_uri_unit('tmp_ipv6_finding', 7, 8, {'C13_NO_KNOWN_IPV6': 1}, 'tmp %d %d')
